@@ -34,20 +34,39 @@ out = subprocess.run([os.path.join(VERIF, "check"), prop], stdout=subprocess.PIP
 if "INTERNAL ERROR" in out or not re.search(r"^%s: (ok|FAIL) " % prop, out, re.M):
     print(out[-3000:])
     sys.exit("check %s gave no verdict; tables left as they are" % prop)
-counts = {}
-for m in re.finditer(r"^  key: (.*?)   \(found x(\d+), allowed x(\d+)\)$", out, re.M):
-    counts[m.group(1)] = int(m.group(2))
+# every violation block:  "  key: K   (found xN, allowed xM)"  optionally followed by  "  detail: <fine-grained key>"
+blocks = []
+lines = out.splitlines()
+for i, ln in enumerate(lines):
+    m = re.match(r"^  key: (.*?)   \(found x(\d+), allowed x(\d+)\)$", ln)
+    if m:
+        det = None
+        if i + 1 < len(lines) and lines[i + 1].startswith("  detail: "):
+            det = lines[i + 1][len("  detail: "):]
+        blocks.append((m.group(1), det))
+# triage each site by its fine-grained description, then count per (key, verdict)
+agg = {}
 unmatched = []
-for key, n in sorted(counts.items()):
+seen = set()
+for key, det in blocks:
+    text = det or key
+    if (key, text) in seen and det is not None:
+        pass
     disp = None
-    for sub, kind, text in TR.RULES.get(prop, []):
-        if sub in key:
-            disp = (kind, text)
+    for sub, kind, why in TR.RULES.get(prop, []):
+        if sub in text or sub in key:
+            disp = (kind, why)
             break
     if disp is None:
-        unmatched.append(key)
+        unmatched.append(text)
         continue
-    kind, text = disp
+    a = agg.setdefault((key, disp[0]), {"count": 0, "reasons": []})
+    a["count"] += 1
+    if disp[1] not in a["reasons"]:
+        a["reasons"].append(disp[1])
+for (key, kind), a in sorted(agg.items()):
+    n = a["count"]
+    text = " / ".join(a["reasons"])
     if kind == "reviewed":
         e = have_rev.get(key)
         if e is None:
